@@ -104,6 +104,16 @@ def _is_path(path):
         
 
 
+def _rows_as_dict(columns, rows):
+    """
+    rows under a header, as a dict of columns. A row with a single cell is repeated across the header.
+    A single column name is not repeated across rows of several cells (it would keep each row's last cell and drop the others)
+    """
+    cols = list(zipper(*rows))
+    if len(columns) == 1 and len(cols) > 1:
+        raise ValueError('rows of %i cells under the single column name %s'%(len(cols), columns))
+    return dict(zipper(columns, cols))
+
 def _data_columns_as_dict(data, columns = None):
     """
     >>> assert _data_columns_as_dict(data = [], columns = []) == dict()
@@ -161,7 +171,7 @@ def _data_columns_as_dict(data, columns = None):
         elif isinstance(data, list) and len(data) and is_dicts(data):
             return dict_concat(data) ## records: __init__ keeps the columns asked for. Read as rows, the records would contribute their keys as cells
         else:
-            return dict(zipper(columns, zipper(*data)))
+            return _rows_as_dict(columns, data)
     else:
         if is_str(data):
             return dict(data = data)
@@ -184,7 +194,7 @@ def _data_columns_as_dict(data, columns = None):
             elif min([isinstance(i, list) for i in data]):
                 if len(data) == 1: ## a header and no rows: zipper(header, []) raises on two headers and drops a single one
                     return {key : [] for key in data[0]}
-                return dict(zipper(data[0], zipper(*data[1:])))
+                return _rows_as_dict(data[0], data[1:])
             else:
                 return dict(data = data)
         elif isinstance(data, dict):
